@@ -660,6 +660,15 @@ def setitem(I, v, idx, val, node=None):
 
 
 def delitem(I, v, idx, node=None):
+    if isinstance(v, DictV) and v.sym_items is not None:
+        for i, (k, x) in enumerate(v.sym_items):
+            if I.ctx.branch(I.eq(idx, k)):
+                del v.sym_items[i]
+                return
+        if key_concrete(idx) and idx in v.entries:
+            del v.entries[idx]
+            return
+        raise PyRaise("KeyError", "key not in dict", site=node)
     if isinstance(v, DictV):
         if v.abstract is not None:
             return v.abstract.delete(I, idx, node)
@@ -708,6 +717,18 @@ def binop(I, op, a, b, node=None):
         if (a is None or b is None) or (is_strlike(a) != is_strlike(b)):
             raise PyRaise("TypeError", "unsupported operand types for +: %r %r" % (type(a).__name__, type(b).__name__), site=node)
         raise OutOfReach("+ on %r, %r" % (a, b))
+    if isinstance(op, (ast.Sub, ast.BitAnd)) and isinstance(a, SetV) and (isinstance(b, (DictV, frozenset, SetV))):
+        # set difference / intersection with a (possibly abstract) set: decide membership element-wise
+        keep = []
+        for x in a.items:
+            if isinstance(b, DictV):
+                m = dict_has(I, b, x)
+            else:
+                m = I.contains(x, b)
+            inb = I.ctx.branch(m)
+            if inb == isinstance(op, ast.BitAnd):
+                keep.append(x)
+        return SetV(keep)
     if isinstance(op, ast.Sub):
         if is_intlike(a) and is_intlike(b):
             if isinstance(a, int) and isinstance(b, int):
@@ -894,6 +915,12 @@ def call_method(I, recv, name, args, kwargs, node=None):
         if name == "add":
             recv.items.append(args[0])
             return None
+        if name == "remove":
+            for i, x in enumerate(recv.items):
+                if ctx.branch(I.eq(args[0], x)):
+                    del recv.items[i]
+                    return None
+            raise PyRaise("KeyError", "set.remove(x): x not in set", site=node)
         raise OutOfReach("method %s of set" % name)
     if isinstance(recv, ReConst):
         from . import relib
@@ -1556,6 +1583,32 @@ def _next(I, args, kwargs):
 import codecs as _codecs
 for _n in ("BOM_UTF8", "BOM_UTF16_LE", "BOM_UTF16_BE", "BOM_UTF32_LE", "BOM_UTF32_BE"):
     LIBRARY["codecs." + _n] = getattr(_codecs, _n)
+def _opaque_str_fn(name):
+    def f(I, args, kwargs):
+        fn = I.ctx.opaque_fn(name, [z3.StringSort()], z3.StringSort())
+        a = args[0]
+        if not is_strlike(a):
+            raise PyRaise("TypeError", "%s of non-string" % name)
+        return mk_str(fn(zs(a)))
+    return NativeFn(name, f)
+
+
+LIBRARY["xml.sax.saxutils.escape"] = _opaque_str_fn("xml_escape")
+LIBRARY["xml.sax.saxutils.unescape"] = _opaque_str_fn("xml_unescape")
+LIBRARY["six.moves.urllib_parse"] = None      # set below (module reference)
+
+
+def _urlparse(I, args, kwargs):
+    from .values import SRec
+    s = args[0]
+    raises = I.ctx.opaque_fn("urlparse_raises", [z3.StringSort()], z3.BoolSort())
+    ident = I.ctx.opaque_fn("urlparse_id", [z3.StringSort()], z3.IntSort())
+    if I.ctx.branch(raises(zs(s))):
+        raise PyRaise("ValueError", "urlparse: invalid URL")
+    return SRec(ident(zs(s)), "ParseResult", {"scheme": "str", "path": "str", "netloc": "str"})
+
+
+LIBRARY["urllib.parse.urlparse"] = NativeFn("urlparse", _urlparse)
 LIBRARY["warnings.warn"] = NativeFn("warnings.warn", lambda I, a, k: None)     # warnings are not errors (assumption)
 
 
